@@ -1,4 +1,6 @@
 import TongoProofs.Lemmas.CellHashTree
+import TongoProofs.Lemmas.CellTable
+import TongoProofs.Lemmas.HashMemo
 import TongoGen.LevelMask
 /-! Property C02 — cell hash, depth and level follow the TON representation-hash definition.
 
@@ -134,5 +136,66 @@ theorem panic_without_wf (H : List UInt8 → List UInt8) :
       tyOrdinary, tyPruned, tyMerkleProof, tyMerkleUpdate]
     rfl
   · decide
+
+
+/-- **Table refines tree.** `Table.infos` — the linear, row-by-row evaluation on a bag-of-cells table that the
+compiled model driver runs against the Go code on every check — returns for every row exactly `Cell.info` of the
+tree that row unfolds to (the object the theorems above speak about). Sharing in the DAG is therefore irrelevant to
+the result. -/
+theorem table_refines_tree (H : List UInt8 → List UInt8) (t : Table) (fuel i : Nat) (c : Cell)
+    (h : Table.unfold t fuel i = some c) : (Table.infos H t)[i]? = some (Cell.info H c) :=
+  infos_refines H t fuel i c h
+
+/-- **The cache is sound.** `newImmutableCell` with a pointer-keyed memo table (`Memo.hashMemo`; the table of a
+`boc.Hasher` persists across calls) started from ANY table satisfying `CacheInv` — every entry is the value for the
+tree its pointer denotes, i.e. the cells were not mutated since — returns exactly what the plain recursion returns on
+the tree the pointer denotes (same value, same error, same panic), and leaves a table that satisfies `CacheInv` again.
+In particular the answer is the same as with the empty table (`Cell.Hash()` uses a fresh one). -/
+theorem cache_sound (H : List UInt8 → List UInt8) (heap : Memo.Heap) (fuel p : Nat) (cache : Memo.Cache) (c : Cell)
+    (hinv : Memo.CacheInv H heap cache) (ht : Memo.tree heap fuel p = some c) :
+    Memo.Agrees (Memo.hashMemo H heap fuel p cache) (Cell.info H c) (Memo.CacheInv H heap) ∧
+    Memo.Agrees (Memo.hashMemo H heap fuel p []) (Cell.info H c) (Memo.CacheInv H heap) :=
+  ⟨Memo.memo_agrees H heap fuel p cache c hinv ht,
+   Memo.memo_agrees H heap fuel p [] c (by intro p i h; simp at h) ht⟩
+
+/-- **The hash is structural.** Two pointers — in any two heaps, with any two valid memo tables — that denote the same
+tree `(type, mask, bits, refs…)` get the same answer: the result is a function of the tree alone (no read cursor, no
+pointer identity, no table content enters it). -/
+theorem hash_structural (H : List UInt8 → List UInt8) (heap1 heap2 : Memo.Heap) (f1 f2 p1 p2 : Nat)
+    (cache1 cache2 : Memo.Cache) (c : Cell)
+    (h1 : Memo.CacheInv H heap1 cache1) (h2 : Memo.CacheInv H heap2 cache2)
+    (t1 : Memo.tree heap1 f1 p1 = some c) (t2 : Memo.tree heap2 f2 p2 = some c) :
+    ∀ i1 k1, Memo.hashMemo H heap1 f1 p1 cache1 = .ok (i1, k1) →
+      ∃ k2, Memo.hashMemo H heap2 f2 p2 cache2 = .ok (i1, k2) := by
+  intro i1 k1 e1
+  have a1 := Memo.memo_agrees H heap1 f1 p1 cache1 c h1 t1
+  have a2 := Memo.memo_agrees H heap2 f2 p2 cache2 c h2 t2
+  rw [e1] at a1
+  obtain ⟨s1, _⟩ := a1
+  cases e2 : Memo.hashMemo H heap2 f2 p2 cache2 with
+  | ok r =>
+    obtain ⟨i2, k2⟩ := r
+    rw [e2] at a2
+    obtain ⟨s2, _⟩ := a2
+    rw [s1] at s2
+    cases s2
+    exact ⟨k2, rfl⟩
+  | err e => rw [e2] at a2; simp only [Memo.Agrees] at a2; rw [s1] at a2; cases a2
+  | panic e => rw [e2] at a2; simp only [Memo.Agrees] at a2; rw [s1] at a2; cases a2
+
+
+/-! ### non-vacuity: a tree over all five cell types with non-zero masks satisfies the hypotheses (test on a literal) -/
+
+def zeros (n : Nat) : List Bool := List.replicate n false
+def exPruned : Cell := .mk tyPruned 1 (Bits.natToBits 16 0x0101 ++ zeros 272) []
+def exPruned5 : Cell := .mk tyPruned 5 (Bits.natToBits 16 0x0105 ++ zeros 544) []
+def exLib : Cell := .mk tyLibrary 0 (Bits.natToBits 8 2 ++ zeros 256) []
+def exOrd : Cell := .mk tyOrdinary 5 [true, false, true] [exPruned, exLib, exPruned5]
+def exProof : Cell := .mk tyMerkleProof 2 (Bits.natToBits 8 3 ++ zeros 272) [exOrd]
+def exUpd : Cell := .mk tyMerkleUpdate 2 (Bits.natToBits 8 4 ++ zeros 544) [exOrd, exPruned]
+def exAll : Cell := .mk tyOrdinary 2 [true] [exProof, exUpd]
+
+example : Spec.WFExotic exAll ∧ Spec.tooDeep exAll = false := by decide +kernel
+example : Spec.cellLevel exAll = 2 ∧ Spec.cellLevel exOrd = 3 := by decide +kernel
 
 end Tongo.C02
